@@ -848,6 +848,10 @@ M('c07-vars-base-defaults-swapped', ['C07'], 'core.py',
   "return ScopeVars(self.base, self.defaults)",
   "return ScopeVars(self.defaults, self.base)",
   "the base mapping is applied on top of the explicit defaults")
+M('c15-revert-flatten-zero-levels', ['C15'], 'reduction.py',
+  "    if levels == 0:\n        return glom(target, subspec)",
+  "    if levels == 0:\n        return target",
+  "revert of the repair: flatten(levels=0) ignores its spec")
 M('c04-revert-iterate-message-path', ['C04'], 'core.py',
   "% (target.__class__.__name__, scope[Path], e))",
   "% (target.__class__.__name__, Path(*scope[Path]), e))",
